@@ -170,6 +170,32 @@ def check(ctx):
     strict = [c for f in repo.all_funcs(("adverbs",)) for c in calls_in(f.node) if callee_name(c) == "zip" and any(k.arg == "strict" for k in c.keywords)]
     ctx.ob("C02-R4", "adverbs", "no strict zip in the adverb implementations", not strict, construct="no strict zip in adverbs")
 
+    # ---- R6 counting loops of the iterate adverbs terminate for every numeric count
+    ctx.rule("C02-R6", "counting loops in the adverb implementations (a counter moved by a constant each iteration) exit through an ordering comparison in the direction of the movement, not through a type-strict or exact equality")
+    n6 = 0
+    for f in repo.all_funcs(("adverbs",)):
+        for lp in [n for n in walk_local(f.node) if isinstance(n, ast.While)]:
+            moved = {}
+            for b in lp.body:
+                if isinstance(b, ast.Assign) and isinstance(b.targets[0], ast.Name) and isinstance(b.value, ast.BinOp) and isinstance(b.value.left, ast.Name) and \
+                        b.value.left.id == b.targets[0].id and isinstance(b.value.right, ast.Constant) and isinstance(b.value.op, (ast.Sub, ast.Add)):
+                    moved[b.targets[0].id] = -1 if isinstance(b.value.op, ast.Sub) else 1
+                if isinstance(b, ast.AugAssign) and isinstance(b.target, ast.Name) and isinstance(b.value, ast.Constant) and isinstance(b.op, (ast.Sub, ast.Add)):
+                    moved[b.target.id] = -1 if isinstance(b.op, ast.Sub) else 1
+            tnames = {n.id for n in ast.walk(lp.test) if isinstance(n, ast.Name)}
+            counters = [v for v in moved if v in tnames]
+            if not counters:
+                continue
+            n6 += 1
+            v = counters[0]
+            ctx.instance("C02-R6", f.fq, f"while {src(lp.test)}")
+            t = lp.test
+            ok = isinstance(t, ast.Compare) and len(t.ops) == 1 and isinstance(t.left, ast.Name) and t.left.id == v and isinstance(t.comparators[0], ast.Constant) and \
+                ((moved[v] < 0 and isinstance(t.ops[0], (ast.Gt, ast.GtE))) or (moved[v] > 0 and isinstance(t.ops[0], (ast.Lt, ast.LtE))))
+            ctx.ob("C02-R6", f.fq, f"counting loop on `{v}` exits through an ordering comparison", ok, node=lp, construct=f"counting loop exit test in {f.name}",
+                   msg=f"`while {src(t)}` counts `{v}` {'down' if moved[v] < 0 else 'up'} but exits only on a type-strict / exact equality: a count that is a numpy integer (any computed count), a float or negative never satisfies it and the adverb loops forever")
+    ctx.floor("C02-R6", "counting loops in the adverb implementations", n6, 2)
+
     # ---- R5 (node memos in eval; the compile memo is C04/C05's known finding and not repeated here)
     sub = _NodeMemoOnly(ctx)
     c04.check_memo(sub, repo, cg, "C02-R5")
@@ -232,6 +258,8 @@ SEEDS = [
          "    verb = arr[0].a\n    if isinstance(verb, KGSym) and verb not in reserved_fn_symbols:\n        try:\n            verb = klong._context[verb]\n        except KeyError:\n            pass\n    if arr[0].arity == 1:\n        f = lambda x,k=klong,a=verb: k.eval(KGCall(a, [x], arity=1))", rule="C02-R3"),
     Seed("each2-strict-zip", "fault", "adverbs", "    r = bknp.asarray([f(x,y) for x,y in zip(a,b)])", "    r = bknp.asarray([f(x,y) for x,y in zip(a,b,strict=True)])", rule="C02-R4"),
     Seed("chain-memo-on-node", "fault", "interpreter", "                return chain_adverbs(self, x.a)()", "                chain = getattr(x, '_chain', None)\n                if chain is None:\n                    chain = x._chain = chain_adverbs(self, x.a)\n                return chain()", rule="C02-R5"),
+    Seed("iterate-strict-equality", "fault", "adverbs", "    while a > 0:\n        b = f(b)\n        a = a - 1\n    return b", "    while not safe_eq(a, 0):\n        b = f(b)\n        a = a - 1\n    return b", rule="C02-R6"),
+    Seed("scan-iterate-not-equal", "fault", "adverbs", "    r = [b]\n    while a > 0:", "    r = [b]\n    while a != 0:", rule="C02-R6"),
     Seed("refactor-reorder-shortcuts", "refactor", "adverbs", "        if safe_eq(op.a,'+'):\n            return np_backend.add.reduce(a)\n        elif safe_eq(op.a, '-'):\n            return np_backend.subtract.reduce(a)",
          "        if safe_eq(op.a, '-'):\n            return np_backend.subtract.reduce(a)\n        elif safe_eq(op.a,'+'):\n            return np_backend.add.reduce(a)"),
     Seed("refactor-partial", "refactor", "interpreter", "            f = lambda x,y,f=f,o=o: o(f,x,y)", "            f = functools.partial(o, f) if False else (lambda x,y,f=f,o=o: o(f,x,y))"),
